@@ -193,7 +193,7 @@ package replicator
 //@   requires len(deref(r.queue)) > 0 && (forall j Int :: 0 <= j && j < len(deref(r.queue)) ==> deref(r.queue)[j] != nil)
 //@   ghost Q0 := deref(r.queue)
 //@   ghost H0 := semHeld(r.sem)
-//@   assert @ before call r.processEntryDone#1: fetched == (lastItemsErr(r) == nil) && e != nil
+//@   assert? @ before call r.processEntryDone#1: fetched == (lastItemsErr(r) == nil) && e != nil
 //@   ensures result != nil ==> len(deref(r.queue)) == len(Q0) - 1 && !(itemHash(Q0[0]) in r.tasks)
 //@   ensures result == nil && lastItemsErr(r) != nil ==> !(itemHash(Q0[0]) in r.tasks)
 //@   ensures result == nil && lastItemsErr(r) == nil ==> (itemHash(Q0[0]) in r.tasks) && r.tasks[itemHash(Q0[0])] == stateFetched
